@@ -27,13 +27,13 @@ static std::string attr(const DOMElement* e, const char* name) {
 #include <chrono>
 #include <thread>
 static bool g_stamp = false;                                      // api op `T`: "@<ms>" tokens before events and content
-static std::chrono::steady_clock::time_point g_stampT0;
+static long g_stampT0 = 0;
 struct Rec {
 	std::vector<std::string> toks;
 	void add(const std::string& t) { toks.push_back(t); }
 	void stamp() {
 		if (!g_stamp) return;
-		long ms = (long)std::chrono::duration_cast<std::chrono::milliseconds>(std::chrono::steady_clock::now() - g_stampT0).count();
+		long ms = uv::coarseMs() - g_stampT0;
 		toks.push_back("@" + std::to_string(ms));
 	}
 };
@@ -366,7 +366,7 @@ static std::string apiOne(const std::string& engine, const std::string& ops, con
 		nameAnon(*interp);
 		for (const std::string& op : uv::split(ops, ',')) {
 			if (op == "T") {
-				g_stamp = true; g_stampT0 = std::chrono::steady_clock::now();
+				g_stamp = true; g_stampT0 = uv::coarseMs();
 			} else if (op == "s") {
 				InterpreterState s = interp->step(0);
 				rec.add(std::string("ret:") + retName(s));
